@@ -91,29 +91,32 @@ theorem denoteItem_next_value {container : Str} {ifaces : List (Str × List (Str
   | func _ _ => simp [isValueDecl] at hvd
 
 /-- what one item guarantees -/
-def ItemStep (ρ : Nat → Res) (st st1 : St) (itf itf1 : Interface) (i : Item) : Prop :=
+def ItemStep (st st1 : St) (itf itf1 : Interface) (i : Item) : Prop :=
   Grow st.types st1.types ∧ st1.root = st.root ∧ itf1.id = itf.id ∧
   ∀ (container : Str) (ifaces : List (Str × List (Str × Tree))) (s s1 : Scope) (out : List (Str × Tree)),
     denoteItem container ifaces s i = some (s1, out) →
     ∃ newR : List Nat, s1.next = s.next + newR.length ∧ newR.Pairwise (· < ·) ∧
       (∀ x ∈ newR, st.types.resources.length ≤ x ∧ x < st1.types.resources.length) ∧
-      ∀ (RL : List Nat) (acc : List (Str × Tree)), RL.length = s.next → ConsE ρ (RL ++ newR) st1.types →
+      ∀ (ρ : Nat → Res) (RL : List Nat) (acc : List (Str × Tree)), RL.length = s.next →
+        ConsE ρ (RL ++ newR) st1.types →
         RootSim ρ st.types st.root ifaces → Sim ρ st.types st.scope s.binds →
         ExpRel ρ st.types itf.exports acc → ((acc ++ out).map (·.1)).Nodup →
         Sim ρ st1.types st1.scope s1.binds ∧ ExpRel ρ st1.types itf1.exports (acc ++ out)
 
 theorem ifaceStep_ok {st st1 : St} {itf itf1 : Interface} {i : Item}
-    (h : ifaceStep st i itf = .ok (st1, itf1)) : ItemStep ρ st st1 itf itf1 i := by
+    (h : ifaceStep st i itf = .ok (st1, itf1)) : ItemStep st st1 itf itf1 i := by
   have valueCase : ∀ (hvd : isValueDecl i = true) (exports : List (Str × ItemKind)),
       itemTypeDecl st i itf.exports = .ok (st1, exports) → itf1 = { itf with exports := exports } →
-      ItemStep ρ st st1 itf itf1 i := by
+      ItemStep st st1 itf itf1 i := by
     intro hvd exports hd hitf
     subst hitf
-    obtain ⟨g1, rt1, k1⟩ := itemTypeDecl_ok (ρ := ρ) hvd hd
-    refine ⟨g1, rt1, rfl, ?_⟩
+    have F := fun (ρ : Nat → Res) => itemTypeDecl_ok (ρ := ρ) hvd hd
+    have g1 := (F (fun _ => default)).1
+    refine ⟨g1, (F (fun _ => default)).2.1, rfl, ?_⟩
     intro container ifaces s s1 out hden
     refine ⟨[], by simp [denoteItem_next_value hvd hden], List.Pairwise.nil, by simp, ?_⟩
-    intro RL acc _ _ _ hsim hexp hnd
+    intro ρ RL acc _ _ _ hsim hexp hnd
+    have k1 := (F ρ).2.2
     have hfresh : ∀ x ∈ out, alGet itf.exports x.1 = none := by
       intro x hx
       apply alGet_none_of_not_mem
@@ -134,7 +137,9 @@ theorem ifaceStep_ok {st st1 : St} {itf itf1 : Interface} {i : Item}
     split at h
     · rename_i st2 uses exports hu
       cases h
-      obtain ⟨ht, hr, k⟩ := useType_ok (ρ := ρ) hu
+      have F := fun (ρ : Nat → Res) => useType_ok (ρ := ρ) hu
+      have ht := (F (fun _ => default)).1
+      have hr := (F (fun _ => default)).2.1
       refine ⟨by rw [ht]; exact Grow.refl _, hr, rfl, ?_⟩
       intro container ifaces s s1 out hden
       refine ⟨[], ?_, List.Pairwise.nil, by simp, ?_⟩
@@ -158,8 +163,8 @@ theorem ifaceStep_ok {st st1 : St} {itf itf1 : Interface} {i : Item}
               split at hc <;> first | (cases hc; rfl) | cases hc
           have := key items (s, []) (s1, out) hden
           simpa using this
-      · intro RL acc _ _ hrs hsim hexp _
-        obtain ⟨h1, h2, _⟩ := k container ifaces s s1 out acc hrs hsim hexp hden
+      · intro ρ RL acc _ _ hrs hsim hexp _
+        obtain ⟨h1, h2, _⟩ := (F ρ).2.2 container ifaces s s1 out acc hrs hsim hexp hden
         exact ⟨h1, h2⟩
     · cases h
   | func n sg =>
@@ -170,15 +175,16 @@ theorem ifaceStep_ok {st st1 : St} {itf itf1 : Interface} {i : Item}
       · cases h
       · rename_i hfreshE
         cases h
-        obtain ⟨g1, sc1, rt1, k1⟩ := funcType_ok (ρ := ρ) hf
+        have F := fun (ρ : Nat → Res) => funcType_ok (ρ := ρ) hf
+        obtain ⟨g1, sc1, rt1, _⟩ := F (fun _ => default)
         refine ⟨g1, rt1, rfl, ?_⟩
         intro container ifaces s s1 out hden
         simp only [denoteItem] at hden
         obtain ⟨t, ht, hso⟩ := Option.map_eq_some_iff.mp hden
         cases hso
         refine ⟨[], by simp, List.Pairwise.nil, by simp, ?_⟩
-        intro RL acc _ _ _ hsim hexp _
-        have hfr := k1 s hsim [] none t rfl (ForcedOk_free _ _ _) ht
+        intro ρ RL acc _ _ _ hsim hexp _
+        have hfr := (F ρ).2.2.2 s hsim [] none t rfl (ForcedOk_free _ _ _) ht
         have hins : alInsert itf.exports n (.func f) = itf.exports ++ [(n, .func f)] :=
           alInsert_fresh _ _ _ (alGet_none_not_mem _ _ (by simpa using hfreshE))
         refine ⟨by rw [sc1]; exact hsim.mono g1, ?_⟩
@@ -191,14 +197,15 @@ theorem ifaceStep_ok {st st1 : St} {itf itf1 : Interface} {i : Item}
     split at h
     · rename_i st2 exports hd
       cases h
-      obtain ⟨g1, rt1, hlen, k1⟩ := resourceDecl_ok (ρ := ρ) hd
+      have F := fun (ρ : Nat → Res) => resourceDecl_ok (ρ := ρ) hd
+      obtain ⟨g1, rt1, hlen, k0⟩ := F (fun _ => default)
       refine ⟨g1, rt1, rfl, ?_⟩
       intro container ifaces s s1 out hden
-      obtain ⟨hnext, k⟩ := k1 container ifaces s s1 out hden
+      obtain ⟨hnext, _⟩ := k0 container ifaces s s1 out hden
       refine ⟨[st.types.resources.length], by simp [hnext], List.pairwise_singleton _ _,
         by intro x hx; simp at hx; subst hx; exact ⟨Nat.le_refl _, hlen⟩, ?_⟩
-      intro RL acc hRL hcons _ hsim hexp hnd
-      exact k RL hRL hcons hsim acc hexp hnd
+      intro ρ RL acc hRL hcons _ hsim hexp hnd
+      exact ((F ρ).2.2.2 container ifaces s s1 out hden).2 RL hRL hcons hsim acc hexp hnd
     · cases h
   | record n fs =>
     simp only [ifaceStep] at h
